@@ -474,7 +474,33 @@ func (r *Ref) field(obj *ast.Definition, objPath, path string, fd *ast.FieldDefi
 	// argument coercion through the fault-capable custom scalar happens first (field context)
 	for _, a := range fields[0].Arguments {
 		ad := fd.Arguments.ForName(a.Name)
-		if ad == nil || ad.Type.NamedType != "Boom" {
+		if ad == nil {
+			continue
+		}
+		if ad.Type.Elem != nil && ad.Type.Elem.NamedType == "Boom" {
+			// a list of the scalar: the elements are unmarshalled in order, the first failure ends it
+			v, err := a.Value.Value(r.Vars)
+			l, isList := v.([]any)
+			if err != nil || !isList {
+				continue
+			}
+			for i, e := range l {
+				key := "unmarshal:" + fmt.Sprint(e)
+				r.Calls = append(r.Calls, key)
+				r.Positions = append(r.Positions, Position{Path: key, Kind: "unmarshal", Nilable: false})
+				switch r.Plan.Get(key) {
+				case "error":
+					r.addErr(fmt.Sprintf("%s.%s[%d]", path, a.Name, i), "coercion")
+					r.errAt[path] = true
+					return Null
+				case "panic":
+					r.addErr(path, "panic")
+					return Null
+				}
+			}
+			continue
+		}
+		if ad.Type.NamedType != "Boom" {
 			continue
 		}
 		v, err := a.Value.Value(r.Vars)
